@@ -369,7 +369,15 @@ def _pow_uf(base_t, exp_t):
     f = POW_UF.get("pow")
     if f is None:
         f = POW_UF["pow"] = z3.Function("pow", z3.RealSort(), z3.RealSort(), z3.RealSort())
-    return SymFrac(f(base_t, exp_t))
+    t = f(base_t, exp_t)
+    # facts every power function satisfies (they keep the uninterpreted symbol from producing counterexamples that
+    # cannot be replayed, such as 0**2 != 0): x**0 = 1, x**1 = x, 1**y = 1, 0**y = 0 for y > 0
+    st = explore.current()
+    if st is not None:
+        zero, one = z3.RealVal(0), z3.RealVal(1)
+        st.add(z3.And(z3.Implies(exp_t == zero, t == one), z3.Implies(exp_t == one, t == base_t),
+                      z3.Implies(base_t == one, t == one), z3.Implies(z3.And(base_t == zero, exp_t > zero), t == zero)))
+    return SymFrac(t)
 
 
 def _pow(base, e):
@@ -389,6 +397,8 @@ def _pow(base, e):
             return r if isinstance(r, SymFrac) or not isinstance(r, SymInt) else SymFrac(z3.ToReal(r.term))
         bt = base.term if isinstance(base, SymFrac) else z3.ToReal(base.term)
         et = e.term if isinstance(e, SymFrac) else _realval(e)
+        if explore.current() is not None and branch(z3.And(bt == 0, et < 0)):
+            raise ZeroDivisionError("0.0 cannot be raised to a negative power")
         return _pow_uf(bt, et)
     if isinstance(e, (SymInt, SymBV)):
         if not (z3.is_int_value(z3.simplify(e.term)) or z3.is_bv_value(z3.simplify(e.term))):
